@@ -119,15 +119,20 @@ def _same_val(a, b):
     return _same_const(a, b)
 
 
+HAVOC_SHAPES = {}
+
+
 def havoc_value(ex, st, name, cur, declared, peek=None):
     """fresh value generalising `cur` (and `peek`, the value after one iteration)"""
     if declared is not None:
         if isinstance(declared, ListShape):
             raise Unsupported("list shape for a non-list location %s" % name)
+        HAVOC_SHAPES[name] = declared
         return declared.fresh(st, name)
     sh = shape_of(cur)
     if peek is not None:
         sh = join_shape(sh, shape_of(peek))
+    HAVOC_SHAPES[name] = sh
     if isinstance(sh, ConstShape):
         return sh.v
     return sh.fresh(st, name)
@@ -229,6 +234,8 @@ def run_loop(ex, s, st, kind, itv):
             lv.names.add(n)
 
     # ---- havoc -----------------------------------------------------------------------------------------------------
+    shapes = {}
+
     def make_head(round_peeks):
         h = entry.fork()
         for n in sorted(lv.names):
@@ -261,6 +268,7 @@ def run_loop(ex, s, st, kind, itv):
                     raise Unsupported("loop rebinds %s to a different object" % n)
                 continue
             h.locals[n] = havoc_value(ex, h, n, cur, declared.get(n), pk)
+            shapes[("name", n)] = HAVOC_SHAPES.get(n)
         for (oid, f) in sorted(lv.fields, key=lambda x: (x[0], x[1])):
             o = h.heap[oid]
             cur = entry.heap[oid].fields.get(f)
@@ -291,6 +299,7 @@ def run_loop(ex, s, st, kind, itv):
                     raise Unsupported("loop rebinds field %s to a different object" % nm)
                 continue
             o.fields[f] = havoc_value(ex, h, nm, cur, declared.get(nm), pk)
+            shapes[("field", oid, f)] = HAVOC_SHAPES.get(nm)
         for oid in sorted(lv.objs):
             po = None
             for p in round_peeks:
@@ -377,16 +386,24 @@ def run_loop(ex, s, st, kind, itv):
         elif kind == "for":
             head.assume(0 <= idx)
         assumed_ok = True
+        head_goals = {}
         for (nm, fn) in active:
             g = eval_cand(fn, head, idx)
+            head_goals[nm] = g
             if g is None:
                 assumed_ok = False
                 dropped.append((nm, "not evaluable at head"))
                 active = [(a, b) for (a, b) in active if a != nm]
                 break
             head.assume(g)
+            if os.environ.get("PYVC_DEBUG2"):
+                print("   after assuming", nm, check_sat(head.pc, 5000)[0])
         if not assumed_ok:
             continue
+        if active and check_sat(head.pc, 1500)[0] == "unsat":
+            # a semantic invariant that holds at entry cannot contradict the havoc'd head: some candidate is not a
+            # formula of the state (vacuity guard) -> refuse to continue
+            raise Unsupported("inconsistent loop head after assuming candidates %s (non-semantic candidate?)" % [a for a, _ in active])
         head_snapshot = head.fork()
         body_outs = list(_one_iteration(ex, s, head, kind, it, idx, probe_mode=False))
         failed = set()
@@ -418,17 +435,27 @@ def run_loop(ex, s, st, kind, itv):
             if b_out is None or b_out == ("continue",):
                 # shape stability: every havoc'd location must still fit its havoc shape
                 try:
-                    _check_shapes(ex, head_snapshot, b_st, lv)
+                    _check_shapes(ex, head_snapshot, b_st, lv, shapes)
                 except Unsupported as e:
                     shape_problem = e
                     break
                 nidx = (idx + 1) if kind == "for" else None
+                goals = []
                 for (nm, fn) in active:
                     if nm in failed:
                         continue
                     g = eval_cand(fn, b_st, nidx)
-                    if g is None or not entails(b_st.pc, g, 3000):
+                    if g is None:
                         failed.add(nm)
+                        continue
+                    hg = head_goals.get(nm)
+                    if hg is not None and kind != "for" and hg.eq(g):
+                        continue        # same formula as assumed at the head: trivially preserved
+                    goals.append((nm, g))
+                if goals and not entails(b_st.pc, And(*[g for _, g in goals]), 4000):
+                    for (nm, g) in goals:
+                        if not entails(b_st.pc, g, 4000):
+                            failed.add(nm)
         if shape_problem is not None and os.environ.get("PYVC_DEBUG"):
             print("  [loop %d %s] shape problem: %s; active=%s dropped=%s" % (ordinal, anchor, shape_problem, [a for a, _ in active], dropped))
         if shape_problem is not None:
@@ -506,7 +533,7 @@ def _unchanged_field(oid, fld):
     return f
 
 
-def _check_shapes(ex, head, end, lv):
+def _check_shapes(ex, head, end, lv, shapes):
     for n in lv.names:
         if n in head.locals and n in end.locals:
             hv, ev = head.locals[n], end.locals[n]
@@ -519,7 +546,7 @@ def _check_shapes(ex, head, end, lv):
                         _fits_obj(ho, eo, n)
                     continue
                 raise Unsupported("loop variable %s changes between object and value" % n)
-            _fits(hv, ev, n)
+            _fits(hv, ev, n, shapes.get(("name", n)))
     for (oid, f) in lv.fields:
         hv, ev = head.heap[oid].fields.get(f), end.heap[oid].fields.get(f)
         if hv is None or ev is None:
@@ -533,13 +560,14 @@ def _check_shapes(ex, head, end, lv):
                     raise Unsupported("field %s rebound to another object" % f)
                 _fits_obj(ho, eo, f)
             continue
-        _fits(hv, ev, f)
+        _fits(hv, ev, f, shapes.get(("field", oid, f)))
     for oid in lv.objs:
         _fits_obj(head.heap[oid], end.heap[oid], "obj%d" % oid)
 
 
-def _fits(hv, ev, name):
-    sh = shape_of(hv)
+def _fits(hv, ev, name, sh=None):
+    if sh is None:
+        sh = shape_of(hv)
     if isinstance(sh, ConstShape):
         if not _same_val(hv, ev):
             raise Unsupported("loop modifies %s whose havoc shape is a constant" % name)
